@@ -565,12 +565,16 @@ def drop_foreign_values(pieces, genfile, heap):
 
 def heap_line(kind, heap, mode, limit, from_dec, budget, with_vals=True):
     b, d, c = mode
-    toks = [kind, "1" if b else "0", "1" if d else "0", "1" if c else "0", "n" if limit is None else str(limit),
-            "128", "1" if from_dec else "0", str(budget), "0", str(len(heap))]
+    if kind == "fmtall":
+        toks = [kind, "n" if limit is None else str(limit), "128", "1" if from_dec else "0", str(budget), "0", str(len(heap))]
+    else:
+        toks = [kind, "1" if b else "0", "1" if d else "0", "1" if c else "0", "n" if limit is None else str(limit),
+                "128", "1" if from_dec else "0", str(budget), "0", str(len(heap))]
 
     def fr(f):
         vals = f["vals"] or []
-        t = [enc(f["file"]), str(f["line"]), enc(f["func"]), enc(f["source"]), "1" if f["hidden"] else "0", str(len(vals))]
+        # only the emptiness of the source line matters to the model
+        t = [enc(f["file"]), str(f["line"]), enc(f["func"]), "78" if f["source"] else "-", "1" if f["hidden"] else "0", str(len(vals))]
         for r, ty in vals:
             t += ["!" if r is None else enc(r), enc(ty)]
         return t
@@ -776,8 +780,8 @@ def judge_case(ctx, rep, src, genfile, entry, limit, outs, heap, exc_info, err, 
         why = check_frames_in_order(pieces, heap, mode, from_dec, limit)
         if why:
             ctx.violation("oracle 5 (frames are the traceback's frames in order): %s" % why, dict(mrep, oracle="frames"))
-        lines.append(heap_line("fmt", heap, mode, limit, from_dec, MODEL_BUDGET))
         pending.append((mrep, heap, genfile, pieces, mode))
+    lines.append(heap_line("fmtall", heap, MODES[0], limit, from_dec, MODEL_BUDGET))
     ctx.traces_validated += 1
 
 
@@ -868,7 +872,7 @@ def run(ctx):
     probe_f12(ctx)
     run_corpus(ctx, lines, pending)
 
-    nprog = ctx.n(110, 6000) * boost
+    nprog = ctx.n(220, 500) * boost
     std_lines, std_expect = [], []
     for i in range(nprog):
         seed = rng.next()
@@ -895,9 +899,8 @@ def run(ctx):
                     ctx.sample({"seed": seed, "entry": entry, "limit": limit, "features": sorted(features),
                                 "plain_report": outs.get((False, False, False), "")[:600]})
                 judge_case(ctx, rep, src, genfile, entry, limit, outs, heap, exc_info, err, lines, pending)
-                # Py/Traceback.lean vs the real traceback module (group-free graphs, opt entry, no limit)
-                if heap is not None and err is None and entry == "opt" and limit is None \
-                        and not any(x["group"] is not None for x in heap):
+                # Py/Traceback.lean vs the real traceback module (group-free graphs; chain skeleton only)
+                if heap is not None and err is None and not any(x["group"] is not None for x in heap):
                     ref = std_reference(exc_info, None, [])
                     labels = set(x["label"] for x in heap if x["label"])
                     skel = [p for p in parse_text(ref, labels, []) if p[0] in ("only", "cause", "context")]
@@ -924,8 +927,13 @@ def run(ctx):
             else:
                 T = type("T" * max(n, 1), (), {"__repr__": lambda self: 1 / 0})
                 v, r, ty = T(), None, "T" * max(n, 1)
-            got = fmtr._format_value(v)
             ctx.case(("val", n, mk))
+            try:
+                got = fmtr._format_value(v)
+            except Exception as e:
+                ctx.violation("oracle 3 (never fails): _format_value lets %s escape from a raising repr" % type(e).__name__,
+                              {"stream": "val", "n": n, "kind": mk, "oracle": "bounded"})
+                continue
             if len(got) > 128:
                 ctx.violation("oracle 4 (values bounded): _format_value gives %d characters" % len(got),
                               {"stream": "val", "n": n, "kind": mk, "oracle": "bounded"})
@@ -937,7 +945,11 @@ def run(ctx):
 
     out = drv.run(lines + std_lines + val_lines)
     nbad = 0
-    for (mrep, heap, genfile, pieces, mode), o in zip(pending, out):
+    per_mode = []
+    for o in out[:len(lines)]:
+        parts = o.split(" | ")
+        per_mode += parts if len(parts) == 8 else [o] * 8
+    for (mrep, heap, genfile, pieces, mode), o in zip(pending, per_mode):
         if not o.startswith("ok"):
             ctx.broke("correspondence Exc.fmt", "model answered %r for %r" % (o[:80], mrep))
             ctx.violation("model: %s, implementation rendered the exception" % o[:60], dict(mrep, oracle="model"),
@@ -1004,7 +1016,12 @@ def replay(ctx, rep):
         from loguru._better_exceptions import ExceptionFormatter
         n = r["n"]
         T = type("T" * max(n, 1), (), {"__repr__": (lambda self: 1 / 0) if r["kind"] == "raise" else (lambda self: "é" * n)})
-        got = ExceptionFormatter()._format_value(T())
+        try:
+            got = ExceptionFormatter()._format_value(T())
+        except Exception as e:
+            print("_format_value raised", repr(e))
+            print("REPRODUCED")
+            return 1
         print("_format_value ->", len(got), "characters:", got[:80])
         exp = ("é" * n if n <= 128 else "é" * 125 + "...") if r["kind"] == "ok" else None
         bad = len(got) > 128 or (r["kind"] == "raise" and not got.startswith("<unprintable")) or (exp is not None and got != exp)
@@ -1025,7 +1042,11 @@ def replay(ctx, rep):
             print("---- report (backtrace, diagnose, colorize = %r)\n%s" % (r["mode"], ANSI.sub("", outs[tuple(r["mode"])])))
         if r.get("oracle") == "model" and pending:
             out = core.Driver(DRIVER).run(lines)
-            for (mrep, hp, gf, pieces, mode), o in zip(pending, out):
+            per_mode = []
+            for o in out:
+                parts = o.split(" | ")
+                per_mode += parts if len(parts) == 8 else [o] * 8
+            for (mrep, hp, gf, pieces, mode), o in zip(pending, per_mode):
                 if list(mode) != r.get("mode"):
                     continue
                 mp = drop_foreign_values(model_pieces(o[3:].split(" ") if len(o) > 3 else [], hp), gf, hp)
